@@ -394,9 +394,15 @@ fn inner(lines: Vec<Vec<String>>, raw: String) -> Vec<String> {
             }
         }
     }
-    let alt = defined.iter().map(|s| regex::escape(s)).collect::<Vec<_>>().join("|");
-    let re = regex::Regex::new(&format!("^({})$", if alt.is_empty() { "\u{1}never".to_owned() } else { alt })).unwrap();
-    let mut r = r.given(re.clone(), step_fn).when(re.clone(), step_fn).then(re, step_fn);
+    // `given_only <text>`: the text has a definition for Given steps only (When / Then steps with that text match nothing)
+    let given_only: Vec<String> = lines.iter().filter(|l| l[0] == "given_only").map(|l| l[1].replace('_', " ")).collect();
+    let mk = |texts: Vec<&String>| {
+        let alt = texts.iter().map(|s| regex::escape(s)).collect::<Vec<_>>().join("|");
+        regex::Regex::new(&format!("^({})$", if alt.is_empty() { "\u{1}never".to_owned() } else { alt })).unwrap()
+    };
+    let re = mk(defined.iter().collect());
+    let re_rest = mk(defined.iter().filter(|t| !given_only.contains(t)).collect());
+    let mut r = r.given(re, step_fn).when(re_rest.clone(), step_fn).then(re_rest, step_fn);
     for a in &ambiguous {
         // a second definition matching the same text makes the step ambiguous
         let re2 = regex::Regex::new(&format!("^{}()$", regex::escape(a))).unwrap();
